@@ -30,6 +30,11 @@ import (
 //
 // A Go panic is caught by the harness (result `panic`).
 
+// namedStr: a named string type with a String method that does NOT return the text itself
+type namedStr string
+
+func (n namedStr) String() string { return "namedStr(" + string(n) + ")" }
+
 type c15Runner struct{}
 
 func (r *c15Runner) Do(op []string) string {
@@ -52,6 +57,12 @@ func (r *c15Runner) Do(op []string) string {
 		return hx(gogu.PadRight(s(1), atoi(op[2]), s(3)))
 	case "wrap":
 		return hx(gogu.Wrap(s(1), s(2)))
+	case "wrap@named": // a NAMED string type that has a String method (fmt verbs would call it)
+		return hx(string(gogu.Wrap(namedStr(s(1)), s(2))))
+	case "unwrap@named":
+		return hx(string(gogu.Unwrap(namedStr(s(1)), s(2))))
+	case "unwrapwrap@named":
+		return hx(string(gogu.Unwrap(gogu.Wrap(namedStr(s(1)), s(2)), s(2))))
 	case "unwrap":
 		return hx(gogu.Unwrap(s(1), s(2)))
 	case "unwrapwrap":
@@ -151,7 +162,7 @@ func c15OpsFor(str string, toks []string, extended bool) [][]string {
 				pads = append(pads, f+" "+h+" "+itoa(size)+" "+ht)
 			}
 		}
-		for _, f := range []string{"wrap", "unwrap", "unwrapwrap", "wrapall"} {
+		for _, f := range []string{"wrap", "unwrap", "unwrapwrap", "wrapall", "wrap@named", "unwrap@named", "unwrapwrap@named"} {
 			wraps = append(wraps, f+" "+h+" "+ht)
 		}
 	}
